@@ -297,9 +297,9 @@ Definition chk_pure (o : opk) (lk : lay) (fl : flags) : bool :=
   in_place o fl ||
   (forallb (fun l => negb (is_input (fst l))) (written (eff o lk fl)) &&
    forallb (fun l => negb (is_input (fst l))) (assigned (eff o lk fl))).
-Definition chk_separate (o : opk) (lk : lay) (fl : flags) : bool :=
+Definition chk_separate_on (cs : list comp) (o : opk) (lk : lay) (fl : flags) : bool :=
   in_place o fl ||
-  forallb (fun c => forallb (fun r => negb (is_input (fst r))) (roots FUEL (eff o lk fl) (Res, c))) mutable_comps.
+  forallb (fun c => forallb (fun r => negb (is_input (fst r))) (roots FUEL (eff o lk fl) (Res, c))) cs.
 Definition never_written (c : comp) : bool := match c with IdO | IdS | ValO | ValS => true | _ => false end.
 Definition chk_ids_unwritten (o : opk) (lk : lay) (fl : flags) : bool :=
   forallb (fun l => negb (never_written (snd l))) (written (eff o lk fl)).
